@@ -1932,7 +1932,7 @@ def exPrec : Ast 0 :=
   [ .sub (.rules [dx] [.deliverTo (.target 0)]),
     .sub (.rules [A_X, dx] [.deliverTo (.target 1)]),
     .sub (.rules [a_x] [.deliverTo (.target 2)]),
-    .sub (.dflt [.reject (some ⟨550, 5, 1, 1⟩)]) ]
+    .sub (.dflt [.reject (some ⟨550, 5, 1, 1, []⟩)]) ]
 
 /-- the configuration is accepted (the hypothesis of `C04_route_refines_spec` is satisfiable) -/
 example : isOk (load lowerNorm 0 exPrec) = true := by decide
@@ -1940,7 +1940,7 @@ example : isOk (load lowerNorm 0 exPrec) = true := by decide
 a rule for a@x the first declared one wins; the rule spelling A@X matches a@x -/
 example : spec lowerNorm 0 exPrec [] a_x = ([⟨1, [], a_x⟩], none) := by decide
 example : spec lowerNorm 0 exPrec [] b_x = ([⟨0, [], b_x⟩], none) := by decide
-example : spec lowerNorm 0 exPrec [] c_y = ([], some (.reply ⟨550, 5, 1, 1⟩)) := by decide
+example : spec lowerNorm 0 exPrec [] c_y = ([], some (.reply ⟨550, 5, 1, 1, []⟩)) := by decide
 /-- … and so does the loaded pipeline, by the theorem -/
 example (c : Loaded 0) (h : load lowerNorm 0 exPrec = .ok c) :
     route lowerNorm 0 c [] a_x = ([⟨1, [], a_x⟩], none) := by
@@ -1964,13 +1964,13 @@ def exAlias : Ast 1 :=
         .reroute (some
           [ .sub (.rules [dx] [.deliverTo (.target 1)]),
             .sub (.dflt [.deliverTo (.target 2)]) ]) ]),
-    .sub (.dflt [.reject (some ⟨521, 5, 0, 0⟩)]) ]
+    .sub (.dflt [.reject (some ⟨521, 5, 0, 0, []⟩)]) ]
 
 example : isOk (load lowerNorm 1 exAlias) = true := by decide
 /-- the nested pipeline routes on the rewritten addresses -/
 example : spec lowerNorm 1 exAlias b_x l_x = ([⟨1, b_x, a_x⟩, ⟨2, b_x, c_y⟩], none) := by decide
 /-- a remote address that was not produced by the rewrite is refused by the outer default block -/
-example : spec lowerNorm 1 exAlias b_x c_y = ([], some (.reply ⟨521, 5, 0, 0⟩)) := by decide
+example : spec lowerNorm 1 exAlias b_x c_y = ([], some (.reply ⟨521, 5, 0, 0, []⟩)) := by decide
 
 /-- sender side: a table block declared after a rule block still wins; the null sender goes to the
 default block:
@@ -1982,12 +1982,12 @@ default_source      { reject 554 5.7.0 }
 def exSrc : Ast 0 :=
   [ .rules [dx] [.sub (.deliverTo (.target 0))],
     .tbl (some ⟨[b_x], 0⟩) [.sub (.deliverTo (.target 1))],
-    .dflt [.sub (.reject (some ⟨554, 5, 7, 0⟩))] ]
+    .dflt [.sub (.reject (some ⟨554, 5, 7, 0, []⟩))] ]
 
 example : isOk (load lowerNorm 0 exSrc) = true := by decide
 example : spec lowerNorm 0 exSrc b_x c_y = ([⟨1, b_x, c_y⟩], none) := by decide
 example : spec lowerNorm 0 exSrc a_x c_y = ([⟨0, a_x, c_y⟩], none) := by decide
-example : spec lowerNorm 0 exSrc [] c_y = ([], some (.reply ⟨554, 5, 7, 0⟩)) := by decide
+example : spec lowerNorm 0 exSrc [] c_y = ([], some (.reply ⟨554, 5, 7, 0, []⟩)) := by decide
 
 /-- configurations that leave a combination without a decision are refused:
 `destination x { }  default_destination { deliver_to t0 }`, a block with only check / modify, and
@@ -2203,6 +2203,160 @@ end Ex
 /-! ## T1: facts regenerated from the current tree agree with what the model was written from
 
 (finite tables extracted by `tools/extract pipeline`; `decide` is the right tool here) -/
+
+/-! ## a block's configured reply (`parseRejectDirective`)
+
+"… or is refused with that block's configured reply": the reply of a rejecting block is what the `reject`
+directive says — basic code, enhanced code and message are taken as written, independently of each other
+(`reject 450 5.7.1 …` answers 450 5.7.1, `reject 550 4.2.1 …` answers 550 4.2.1), and the defaults are
+554 / 5.7.0 / "Message rejected due to a local policy". -/
+
+theorem tdiv100_class (code : Int) : (Int.tdiv code 100 = 4 ∨ Int.tdiv code 100 = 5) ↔ (400 ≤ code ∧ code ≤ 599) := by
+  rcases Int.le_total 0 code with h | h
+  · rw [Int.tdiv_eq_ediv_of_nonneg h]; omega
+  · have h2 : Int.tdiv code 100 ≤ 0 := by
+      have h3 : 0 ≤ Int.tdiv (-code) 100 := Int.tdiv_nonneg (by omega) (by decide)
+      rw [Int.neg_tdiv] at h3
+      omega
+    omega
+
+theorem rejectWithCode_spec (cs : Str) (e : Nat × Int × Int) (m : Str) (code : Int)
+    (hc : atoi cs = some code) (hcode : 400 ≤ code ∧ code ≤ 599) :
+    rejectWithCode cs e m = some ⟨code.toNat, e.1, e.2.1, e.2.2, m⟩ := by
+  have h := (tdiv100_class code).2 hcode
+  unfold rejectWithCode
+  rw [hc]
+  rcases h with h | h <;> simp [h]
+
+/-- Three arguments (and two arguments: default message): the reply carries exactly the configured basic
+code, the three configured numbers of the enhanced code and the configured message, whatever the classes
+of the two codes are. -/
+theorem C04_reject_reply_is_configured (cs es m : Str) (code x y z : Int)
+    (hc : atoi cs = some code) (he : parseEnhanced es = some (x, y, z))
+    (hcode : 400 ≤ code ∧ code ≤ 599) (hx : x = 4 ∨ x = 5) (hm : m ≠ []) :
+    parseReject [cs, es, m] = some ⟨code.toNat, x.toNat, y, z, m⟩ ∧
+    parseReject [cs, es] = some ⟨code.toNat, x.toNat, y, z, defaultRejectMsg⟩ := by
+  have hm' : m.isEmpty = false := by cases m <;> simp_all
+  have hw : ∀ m', rejectWithEnh cs es m' = some ⟨code.toNat, x.toNat, y, z, m'⟩ := by
+    intro m'
+    unfold rejectWithEnh
+    rw [he]
+    have := rejectWithCode_spec cs (x.toNat, y, z) m' code hc hcode
+    rcases hx with hx | hx <;> subst hx <;> simpa using this
+  constructor
+  · simp [parseReject, hm', hw]
+  · simp [parseReject, hw]
+
+/-- One argument: the configured basic code with the default enhanced code and message; no argument: the
+documented default reply. -/
+theorem C04_reject_code_only (cs : Str) (code : Int) (hc : atoi cs = some code) (hcode : 400 ≤ code ∧ code ≤ 599) :
+    parseReject [cs] = some ⟨code.toNat, 5, 7, 0, defaultRejectMsg⟩ ∧
+    parseReject [] = some ⟨554, 5, 7, 0, defaultRejectMsg⟩ := by
+  constructor
+  · simpa [parseReject] using rejectWithCode_spec cs (5, 7, 0) defaultRejectMsg code hc hcode
+  · rfl
+
+theorem rejectWithCode_sound (cs : Str) (e : Nat × Int × Int) (m : Str) (r : Reply)
+    (h : rejectWithCode cs e m = some r) :
+    (400 ≤ r.code ∧ r.code ≤ 599) ∧ r.e0 = e.1 ∧ r.e1 = e.2.1 ∧ r.e2 = e.2.2 ∧ r.msg = m := by
+  unfold rejectWithCode at h
+  cases hc : atoi cs with
+  | none => simp [hc] at h
+  | some code =>
+    simp only [hc] at h
+    by_cases hd : (Int.tdiv code 100 != 4 && Int.tdiv code 100 != 5) = true
+    · simp [hd] at h
+    · simp only [hd] at h
+      have hcl : Int.tdiv code 100 = 4 ∨ Int.tdiv code 100 = 5 := by
+        simp at hd
+        by_cases h4 : Int.tdiv code 100 = 4
+        · exact Or.inl h4
+        · exact Or.inr (hd h4)
+      have hr := (tdiv100_class code).1 hcl
+      simp at h
+      subst h
+      simp
+      omega
+
+theorem rejectWithEnh_sound (cs es m : Str) (r : Reply) (h : rejectWithEnh cs es m = some r) :
+    (400 ≤ r.code ∧ r.code ≤ 599) ∧ (r.e0 = 4 ∨ r.e0 = 5) ∧ r.msg = m := by
+  unfold rejectWithEnh at h
+  cases he : parseEnhanced es with
+  | none => simp [he] at h
+  | some t =>
+    obtain ⟨x, y, z⟩ := t
+    simp only [he] at h
+    by_cases hd : (x != 4 && x != 5) = true
+    · simp [hd] at h
+    · simp only [hd] at h
+      have hs := rejectWithCode_sound cs _ m r h
+      have hx : x = 4 ∨ x = 5 := by
+        simp at hd
+        by_cases h4 : x = 4
+        · exact Or.inl h4
+        · exact Or.inr (hd h4)
+      refine ⟨hs.1, ?_, hs.2.2.2.2⟩
+      rw [hs.2.1]
+      rcases hx with hx | hx <;> subst hx <;> simp
+
+/-- Every reply that an accepted `reject` directive configures is a refusal: a 4xx/5xx basic code, an
+enhanced code of class 4 or 5 and a non-empty message. -/
+theorem C04_reject_reply_is_a_refusal (args : List Str) (r : Reply) (h : parseReject args = some r) :
+    (400 ≤ r.code ∧ r.code ≤ 599) ∧ (r.e0 = 4 ∨ r.e0 = 5) ∧ r.msg ≠ [] := by
+  have hdef : defaultRejectMsg ≠ [] := by decide
+  match args, h with
+  | [], h =>
+    simp [parseReject] at h
+    subst h
+    exact ⟨by decide, by decide, hdef⟩
+  | [c], h =>
+    have hs := rejectWithCode_sound c (5, 7, 0) defaultRejectMsg r (by simpa [parseReject] using h)
+    exact ⟨hs.1, Or.inr hs.2.1, by rw [hs.2.2.2.2]; exact hdef⟩
+  | [c, e], h =>
+    have hs := rejectWithEnh_sound c e defaultRejectMsg r (by simpa [parseReject] using h)
+    exact ⟨hs.1, hs.2.1, by rw [hs.2.2]; exact hdef⟩
+  | [c, e, m], h =>
+    simp only [parseReject] at h
+    by_cases hm : m.isEmpty = true
+    · simp [hm] at h
+    · simp only [hm] at h
+      have hs := rejectWithEnh_sound c e m r h
+      refine ⟨hs.1, hs.2.1, ?_⟩
+      rw [hs.2.2]
+      intro h0
+      subst h0
+      simp at hm
+  | _ :: _ :: _ :: _ :: _, h => simp [parseReject] at h
+
+namespace Ex
+def s450 : Str := [52, 53, 48]            -- 450
+def s550 : Str := [53, 53, 48]            -- 550
+def s571 : Str := [53, 46, 55, 46, 49]    -- 5.7.1
+def s421 : Str := [52, 46, 50, 46, 49]    -- 4.2.1
+def later : Str := [108, 97, 116, 101, 114]  -- later
+
+/-- the hypotheses of `C04_reject_reply_is_configured` are satisfiable with disagreeing classes -/
+example : atoi s450 = some 450 ∧ parseEnhanced s571 = some (5, 7, 1) := by decide
+example : parseReject [s450, s571, later] = some ⟨450, 5, 7, 1, later⟩ := by decide
+example : parseReject [s550, s421] = some ⟨550, 4, 2, 1, defaultRejectMsg⟩ := by decide
+example : parseReject [s450] = some ⟨450, 5, 7, 0, defaultRejectMsg⟩ := by decide
+/-- refused: basic code outside 4xx/5xx, enhanced class 2, two numbers only, empty message, four arguments -/
+example : parseReject [[50, 48, 48]] = none := by decide
+example : parseReject [s550, [50, 46, 48, 46, 48]] = none := by decide
+example : parseReject [s550, [53, 46, 55]] = none := by decide
+example : parseReject [s550, s571, []] = none := by decide
+example : parseReject [s550, s571, later, later] = none := by decide
+
+/-- ```
+destination x            { deliver_to t0 }
+default_destination      { reject 450 5.7.1 later }
+``` : the recipient is refused with 450 5.7.1 "later" -/
+def exRej : Ast 0 :=
+  [ .sub (.rules [dx] [.deliverTo (.target 0)]),
+    .sub (.dflt [.reject (parseReject [s450, s571, later])]) ]
+example : isOk (load lowerNorm 0 exRej) = true := by decide
+example : spec lowerNorm 0 exRej [] c_y = ([], some (.reply ⟨450, 5, 7, 1, later⟩)) := by decide
+end Ex
 
 /-- the directive grammar of the three parsers -/
 theorem C04_T1_directive_cases :
